@@ -92,7 +92,7 @@ def registry_family(pid, tier, chk=None):
         chk.exhaustive_parts.append("MC_Registry: universe full1 (every single sample with two nested objects over x, y, f) x 4 policies")
         chk.rng.shuffle(mcr)
         mcr = mcr[:4000]
-    cases = mcr + DR.two_level_cases(chk.rng, 120 if quick else 1500) + cases
+    cases = mcr + DR.two_level_cases(chk.rng, 120 if quick else 1500) + DR.hidden_union_cases(chk.rng, 200 if quick else 3000) + cases
     traces, inputs = DR.registry_traces(pid, chk, cases)
     chk.rules.append("%d TLC-enumerated inputs of MC_Registry + %d seeded random nested inputs x merge policies through the real ModelRegistry "
                      "(generate, process_meta_data, merge_models, second optimise pass)" % (len(mcr), n_random))
